@@ -3,6 +3,7 @@ import Pm.TelnetPass
 import Pm.CapProof
 import Pm.CbufRingRun
 import Pm.ToBufProps
+import Pm.StdioCli
 /-! # C09 — the byte streams between the daemon and its devices and clients are carried faithfully
 
 What expect patterns are matched against is exactly the byte stream the device sent on the current connection — in
@@ -1412,5 +1413,42 @@ theorem C09_serial_vmin_f36_fixed :
       ttyIn t' [79, 75, 10] = ([79, 75, 10], []) ∧ pollReadable t' [79, 75, 10] = true ∧
       pollReadable { t' with vmin := 10 } [79, 75, 10] = false :=
   ⟨_, rfl, by decide⟩
+
+/-! ## The `--stdio` client: input and output are two descriptors (`Pm/StdioCli.lean`) -/
+
+section Stdio
+open Pm.Daemon Pm.Daemon.Stdio
+
+/-- **Write side, `--stdio` client.**  One `_handle_write`: the bytes handed to the *output* descriptor followed by what stays
+    queued is what was queued before — nothing lost, duplicated or reordered, whatever the descriptor's capacity, blocking or
+    not, failing or not — and no other descriptor (the input descriptor in particular) is written to. -/
+theorem C09_stdio_conserve (ofd : Nat) (w : W) (c : Cli) :
+    Pm.Daemon.Tel.written ofd (handleWriteIO ofd w c).1.sys ++ (handleWriteIO ofd w c).2.toBuf = Pm.Daemon.Tel.written ofd w.sys ++ c.toBuf ∧
+    (∀ fd, fd ≠ ofd → Pm.Daemon.Tel.written fd (handleWriteIO ofd w c).1.sys = Pm.Daemon.Tel.written fd w.sys) :=
+  ⟨(handleWriteIO_conserve ofd w c).1, (handleWriteIO_conserve ofd w c).2.2⟩
+
+/-- **The final flush goes to the output descriptor.**  The `quit` request of the `--stdio` client: unless the output descriptor
+    fails (`cap < 0`), everything queued so far and `101 Goodbye` are handed to `ofd` in one `write`, however little it can take
+    at once (`blocks` says whether the daemon has to sleep for it), and the queue is empty when the client is destroyed. -/
+theorem C09_stdio_quit_flush (ofd : Nat) (w : W) (c : Cli) (hcap : ¬ capOf w ofd < 0) :
+    (ClientPf.plQuit w { c with fd := ofd }).2.toBuf = [] ∧
+    (ClientPf.plQuit w { c with fd := ofd }).1.sys =
+      w.sys ++ [Sys.write ofd (c.toBuf ++ ClientPf.render [ClientPf.item101]) false
+                 (capOf w ofd < ((c.toBuf ++ ClientPf.render [ClientPf.item101]).length : Int))] :=
+  ⟨(quit_flush ofd w c hcap).1, (quit_flush ofd w c hcap).2.2⟩
+
+/-- non-vacuity: a client with 5 bytes queued, an output descriptor (1001) that can take 2 of them: all 18 bytes (queue and
+    farewell) are written to 1001, none to the input descriptor 1000, and the call is marked as one that sleeps -/
+example :
+    Pm.Daemon.Tel.written 1001 (handleInputIO 1001 { cfg := { plugs := [], has := [], nodes := [], version := [] }, clients := [], caps := [(1001, 2)] }
+        { id := 1, fd := 1000, toBuf := [1, 2, 3, 4, 5], fromBuf := Pm.Daemon.bstr "quit\n" }).1.sys = [1, 2, 3, 4, 5] ++ Pm.Daemon.bstr "101 Goodbye\r\n" ∧
+    Pm.Daemon.Tel.written 1000 (handleInputIO 1001 { cfg := { plugs := [], has := [], nodes := [], version := [] }, clients := [], caps := [(1001, 2)] }
+        { id := 1, fd := 1000, toBuf := [1, 2, 3, 4, 5], fromBuf := Pm.Daemon.bstr "quit\n" }).1.sys = [] ∧
+    (handleInputIO 1001 { cfg := { plugs := [], has := [], nodes := [], version := [] }, clients := [], caps := [(1001, 2)] }
+        { id := 1, fd := 1000, toBuf := [1, 2, 3, 4, 5], fromBuf := Pm.Daemon.bstr "quit\n" }).2.toBuf = [] ∧
+    (handleInputIO 1001 { cfg := { plugs := [], has := [], nodes := [], version := [] }, clients := [], caps := [(1001, 2)] }
+        { id := 1, fd := 1000, toBuf := [1, 2, 3, 4, 5], fromBuf := Pm.Daemon.bstr "quit\n" }).2.fd = 1000 := by decide +kernel
+
+end Stdio
 
 end Pm.Props.C09
